@@ -577,6 +577,8 @@ static Case fuzzCase(FuzzedDataProvider &fdp)
     c.bytes = fdp.ConsumeRemainingBytesAsString();
     // most inputs should get past the QDCOUNT == 1 gate
     if (c.bytes.size() >= 12 && (static_cast<unsigned char>(c.bytes[0]) & 3)) { c.bytes[4] = 0; c.bytes[5] = 1; }
+    // the decoder allocates ANCOUNT records up front (18 MB for 65535): keep most counts below 256
+    if (c.bytes.size() >= 12 && (static_cast<unsigned char>(c.bytes[1]) & 15)) c.bytes[6] = 0;
     c.note = "fuzz mutated";
     return c;
 }
